@@ -201,6 +201,16 @@ impl Ctx {
         if r0 == Ans::Unsat {
             return Some(true);
         }
+        if r0 == Ans::Unknown {
+            // fallback: executor-side polynomial normalisation of the goal, solver decides the
+            // normalised query
+            if let Some(a) = self.normalized_query(a, b, &[], short.max(3000)) {
+                self.stats.normalized_fallbacks += 1;
+                if a == Ans::Unsat {
+                    return Some(true);
+                }
+            }
+        }
         let has_eq = self.pc.iter().any(|l| matches!(l, Lit::Eq(..)));
         let has_ne = self.pc.iter().any(|l| matches!(l, Lit::Ne(..)));
         if has_eq {
@@ -209,6 +219,15 @@ impl Ctx {
             let r1 = self.run_query(defs, format!("{pc}{goal}"), timeout_ms);
             if r1 == Ans::Unsat {
                 return Some(true);
+            }
+            if r1 == Ans::Unknown {
+                let eqs: Vec<(u32, u32)> = self.pc.iter().filter_map(|l| if let Lit::Eq(x, y) = l { Some((*x, *y)) } else { None }).collect();
+                if let Some(a) = self.normalized_query(a, b, &eqs, timeout_ms) {
+                    self.stats.normalized_fallbacks += 1;
+                    if a == Ans::Unsat {
+                        return Some(true);
+                    }
+                }
             }
         }
         if has_ne {
@@ -225,6 +244,34 @@ impl Ctx {
             return Some(false);
         }
         None
+    }
+
+    /// goal and the given path equalities in canonical polynomial form
+    fn normalized_query(&mut self, a: u32, b: u32, eqs: &[(u32, u32)], timeout_ms: u32) -> Option<Ans> {
+        let mut memo = std::collections::HashMap::new();
+        let d = self.sub(a, b);
+        let pd = self.poly(d, &mut memo)?;
+        let mut defs = String::new();
+        let mut body = String::new();
+        let mut atoms: Vec<u32> = pd.keys().flat_map(|m| m.iter().map(|x| x.0)).collect();
+        let mut eq_polys = vec![];
+        for (x, y) in eqs {
+            let e = self.sub(*x, *y);
+            let pe = self.poly(e, &mut memo)?;
+            atoms.extend(pe.keys().flat_map(|m| m.iter().map(|x| x.0)));
+            eq_polys.push(pe);
+        }
+        atoms.sort();
+        atoms.dedup();
+        for at in atoms {
+            let _ = self.smt_name(at, &mut defs);
+        }
+        let q = self.m.q.to_dec();
+        for pe in eq_polys {
+            body.push_str(&format!("(assert (= (mod {} {q}) 0))\n", self.poly_smt(&pe)));
+        }
+        body.push_str(&format!("(assert (not (= (mod {} {q}) 0)))\n", self.poly_smt(&pd)));
+        Some(self.run_query(defs, body, timeout_ms))
     }
 
     /// Is `PC ∧ a ≡ b` satisfiable? Some(false) = solver proved it unsatisfiable.
